@@ -27,6 +27,8 @@ type prodProc struct {
 	stderr strings.Builder
 	work   string
 	ctrl   string
+	done    chan struct{} // closed when the process has ended
+	waitErr error
 }
 
 func frontArgs(front, work string) (bin string, args []string) {
@@ -78,14 +80,28 @@ func startProd(work string, sc *dscenario, front string, dev map[int]string, pau
 	if err := p.cmd.Start(); err != nil {
 		panic(err)
 	}
+	p.done = make(chan struct{})
+	go func() {
+		p.waitErr = p.cmd.Wait()
+		close(p.done)
+	}()
 	return p
 }
 
-func (p *prodProc) wait(timeout time.Duration) (exit int, timedOut bool) {
-	done := make(chan error, 1)
-	go func() { done <- p.cmd.Wait() }()
+// finished tells whether the process has ended already.
+func (p *prodProc) finished() bool {
 	select {
-	case err := <-done:
+	case <-p.done:
+		return true
+	default:
+		return false
+	}
+}
+
+func (p *prodProc) wait(timeout time.Duration) (exit int, timedOut bool) {
+	select {
+	case <-p.done:
+		err := p.waitErr
 		if err == nil {
 			return 0, false
 		}
@@ -95,14 +111,14 @@ func (p *prodProc) wait(timeout time.Duration) (exit int, timedOut bool) {
 		return -1, false
 	case <-time.After(timeout):
 		syscall.Kill(-p.cmd.Process.Pid, syscall.SIGKILL)
-		<-done
+		<-p.done
 		return -1, true
 	}
 }
 
 func (p *prodProc) kill9() {
 	syscall.Kill(-p.cmd.Process.Pid, syscall.SIGKILL)
-	p.cmd.Wait()
+	<-p.done
 }
 
 func waitFile(path string, timeout time.Duration) bool {
@@ -211,8 +227,9 @@ func c12Process(ctx *core.Ctx, res *core.Result) {
 	}
 	sem := make(chan struct{}, 12)
 	type jr struct {
-		evals int
-		viols []core.Violation
+		evals   int
+		skipped int
+		viols   []core.Violation
 	}
 	results := make(chan jr, len(jobs))
 	for ji, j := range jobs {
@@ -233,9 +250,22 @@ func c12Process(ctx *core.Ctx, res *core.Result) {
 			}
 			holder := startProd(work, &hsc, j.h.front, nil, j.phase, "ctrl-holder", "")
 			ev := []string{fmt.Sprintf("holder=%s/%s paused at phase %d kill=%v GOGC=1:%v housekeeping:%v", j.h.devType, j.h.front, j.phase, j.kill, j.gc, j.house)}
-			if !waitFile(filepath.Join(holder.ctrl, "paused"), 90*time.Second) {
-				holder.kill9()
-				add("holder-did-not-reach-phase", fmt.Sprintf("holder %v never reached phase %d", j.h, j.phase), ev)
+			reached := false
+			for end := time.Now().Add(90 * time.Second); time.Now().Before(end) && !holder.finished(); time.Sleep(3 * time.Millisecond) {
+				if _, err := os.Stat(filepath.Join(holder.ctrl, "paused")); err == nil {
+					reached = true
+					break
+				}
+			}
+			if !reached {
+				if holder.finished() {
+					// the run needs fewer device lines than the reference dialogue
+					// (it does not wait for an answer to its last line): no holder left
+					out.skipped++
+				} else {
+					holder.kill9()
+					add("holder-did-not-reach-phase", fmt.Sprintf("holder %v never reached phase %d", j.h, j.phase), ev)
+				}
 				results <- out
 				return
 			}
@@ -270,6 +300,13 @@ func c12Process(ctx *core.Ctx, res *core.Result) {
 					snap = now
 				}
 			}
+			if holder.finished() {
+				// the holder did not wait for the paused answer and ended on its
+				// own: the contenders ran against a free device
+				out.viols, out.skipped = nil, out.skipped+1
+				results <- out
+				return
+			}
 			if j.kill {
 				holder.kill9()
 			} else {
@@ -294,6 +331,7 @@ func c12Process(ctx *core.Ctx, res *core.Result) {
 		res.Evaluations += int64(r.evals)
 		res.Nontrivial += int64(r.evals)
 		res.Count("process_level_contender_runs", int64(r.evals))
+		res.Count("process_level_phases_without_holder(run ended by itself)", int64(r.skipped))
 		for _, v := range r.viols {
 			res.AddViolation(v)
 		}
